@@ -29,6 +29,34 @@ CLAIMED = {
              "scripted nice_interfaces_get_local_ips. In-agent list order at role switch / renomination is tied by simulation only.",
         technique="Lean 4 proof over source-regenerated definitions (translator) + differential correspondence",
         design="5/C15"),
+    "C18": dict(
+        text="Lean 4 theorems: private/link-local classification of ALL 2^32 IPv4 addresses (and the IPv6 prefixes) equals the "
+             "RFC 1918/3927/4193/loopback ranges, proved over the kernels regenerated from address.c's typed AST; equality is "
+             "reflexive (valid addresses), symmetric, transitive for compatible scope ids (the scope-id wildcard breaks "
+             "transitivity by design: exhibited and recorded as a known finding); candidate SDP generate->parse round trip "
+             "for every well-formed candidate incl. priorities >= 2^31 (printed with %d), port 0 -> 9, raddr/rport, tcptype; "
+             "parsing is total and yields none or a candidate whose address came from a successful pton. Hand-written "
+             "Addr/Sdp models are tied line by line to the real nice_address_* / nice_agent_generate/parse_*_sdp functions "
+             "(two real agents), libc text conversions validated on every run; thorough tier sweeps all 2^32 addresses in C.",
+        note="Trusted: Lean kernel, extract.py translator, misc_drv harness, libc inet_ntop/getaddrinfo behaviour stated as "
+             "hypothesis LibcOK (validated by the harness), multi-stream parse path tied by differential run only "
+             "(C18_stream_roundtrip_partial). 'Never crashes' is sanitizer-observed on explored inputs.",
+        technique="Lean 4 proof (bit-vector ranges, round-trip) over regenerated kernels + differential correspondence",
+        design="5/C18"),
+    "C01": dict(
+        text="PARTIAL. Lean 4 theorems decide the role-resolution part for every schedule: in the abstract two-agent system "
+             "over a monotone message history (any loss/duplication/delay/reordering/stale delivery) roles never change when "
+             "they differ initially; when equal, only the tie-break-designated agent ever changes, only once, 487s are only "
+             "ever addressed to it, and any delivered request or 487 settles the roles (exactly one controller afterwards). "
+             "The kernels mirror create_reply's conflict block and conncheck.c's 487 rule and are tied on every run by "
+             "replaying every connectivity check a real agent receives in simulation through the Lean kernel. Convergence to "
+             "READY on mirrored pairs is NOT proved: it is explored by simulating two real NiceAgents (virtual clock and UDP "
+             "network, loss respecting the property's hypothesis, random signalling interleavings). Two genuine deviations of "
+             "libnice are recorded as known findings (K1 candidates-before-credentials, K2 aggressive nomination + peer-reflexive).",
+        note="Trusted: Lean kernel, hand-written IceRole kernels + role monitor, sim_drv (interposed clock/sendmsg/recvmsg/poll, "
+             "scripted interface list, deterministic RNG), UDP host candidates only.",
+        technique="Lean 4 proof of role-resolution invariants (message-history system) + trace monitor + simulation of real agents",
+        design="5/C01"),
 }
 
 NA_REASON = "not yet decided by the framework at this commit (model/theorems under construction); not claimed"
